@@ -209,6 +209,20 @@ def oracle(case, classes=None):
                 back = U.to_flat(U.apply_checked(op, U.apply_checked(op, fy, 2, problems), 8, problems), tgt)
                 if not np.array_equal(back, y1):
                     return (f"{cls}: A^-H A^H y != y", sig("adjoint-inverse"))
+        # inputs on a different (equal-shaped) domain must be rejected (_check_input)
+        import nifty.cl as ift
+        for mode in (1, 2):
+            if not (op.capability & mode):
+                continue
+            d = op._dom(mode)
+            if isinstance(d, ift.DomainTuple) and len(d) >= 1 and d.size > 0:
+                wrong = ift.DomainTuple.make(tuple(ift.UnstructuredDomain(dd.shape) if not isinstance(dd, ift.UnstructuredDomain)
+                                                   else ift.RGSpace(dd.shape) for dd in d))
+                try:
+                    op.apply(ift.full(wrong, 1. + 0j if cplx else 1.), mode)
+                    return (f"{cls}: mode {mode} accepted a field that lives on a different domain", sig("domain-check", mode=mode))
+                except Exception:
+                    pass
         if hasattr(spec, "extra_oracle"):
             r = spec.extra_oracle(case, op, rng)
             if r is not None:
